@@ -175,11 +175,27 @@ func runOne(c *mon.C, shapes []gen.Shape, side ref.Side, ext bool, b bad, withTa
 		// (the size limit is a resource bound of its own: it holds with the RFC header checks switched off too)
 		entries = []string{"reader", "reader-skipcheck"}
 	}
+	if ext {
+		// "plain or extended": an extended reader is one that has negotiated extensions, and those see every
+		// header (after the RFC check) before the frame is delivered
+		entries = append(append([]string(nil), entries...), "reader-extensions")
+	}
 	ps := xport.Plans(c.Rng.Int63(), marks)
 	for ei, entry := range entries {
 		o := drive.Opts{Entry: entry, Side: side, Extended: ext, MaxFrameSize: maxFrame}
 		if entry == "reader-skipcheck" {
 			o.Entry, o.SkipCheck = "reader", true
+		}
+		if entry == "reader-extensions" {
+			o.Entry = "reader"
+			clearRsv1 := wsutil.RecvExtensionFunc(func(h ws.Header) (ws.Header, error) {
+				r1, r2, r3 := ws.RsvBits(h.Rsv)
+				_ = r1
+				h.Rsv = ws.Rsv(false, r2, r3)
+				return h, nil
+			})
+			same := wsutil.RecvExtensionFunc(func(h ws.Header) (ws.Header, error) { return h, nil })
+			o.Extensions = [][]wsutil.RecvExtension{{same}, {clearRsv1}, {same, clearRsv1}}[c.I%3]
 		}
 		if entry == "reader-ctlhandler" {
 			o.Entry, o.Intermediate, o.CheckUTF8 = "reader", 3, true
